@@ -32,7 +32,20 @@ static void res_case(void) {
     lp_polynomial_mul(A, A, g); lp_polynomial_mul(B, B, g); lp_polynomial_delete(g);
   } else if (w < 28) { lp_polynomial_assign(B, A); }
   else if (w < 36) { lp_polynomial_derivative(B, A); if (lp_polynomial_is_constant(B) || lp_polynomial_top_variable(B) != hp_x[nv - 1]) { lp_polynomial_delete(B); B = gen_main(nv, 1, 0); } }
-  if (lp_polynomial_degree(A) + lp_polynomial_degree(B) > 7) { lp_polynomial_delete(A); lp_polynomial_delete(B); return; }
+  else if (w < 56 && nv == 1) {
+    /* remainder sequence built bottom-up (r_{i-1} = r_i * B_i + r_{i+1}) with chosen degree gaps: defective chains with
+       gaps up to 4 at the first and at later steps (Ducos' optimised S_e with every small exponent) */
+    unsigned d2 = rnd(2), g1 = 1 + rnd(4), d1 = d2 + g1; if (d1 > 4) d1 = 4;
+    unsigned gq = 1 + rnd(2), gp = rnd(3);
+    lp_polynomial_t* r2 = gen_main(1, d2, 0); lp_polynomial_t* r1 = gen_main(1, d1, 0);
+    lp_polynomial_t* B1 = gen_main(1, gq, 0); lp_polynomial_t* B2 = gen_main(1, gp, 0);
+    lp_polynomial_mul(B, r1, B1); lp_polynomial_add(B, B, r2);          /* Q = r1*B1 + r2 */
+    lp_polynomial_mul(A, B, B2); lp_polynomial_add(A, A, r1);           /* P = Q*B2 + r1 */
+    lp_polynomial_delete(r1); lp_polynomial_delete(r2); lp_polynomial_delete(B1); lp_polynomial_delete(B2);
+    if (chance(30)) { lp_polynomial_t* t = A; A = B; B = t; }
+    if (lp_polynomial_is_constant(A) || lp_polynomial_is_constant(B)) { lp_polynomial_delete(A); lp_polynomial_delete(B); return; }
+  }
+  if (lp_polynomial_degree(A) + lp_polynomial_degree(B) > (nv == 1 ? 12u : 7u)) { lp_polynomial_delete(A); lp_polynomial_delete(B); return; }
   if (lp_polynomial_top_variable(A) != hp_x[nv - 1] || lp_polynomial_top_variable(B) != hp_x[nv - 1]) { lp_polynomial_delete(A); lp_polynomial_delete(B); return; }
   size_t dA = lp_polynomial_degree(A), dB = lp_polynomial_degree(B);
   size_t sz = (dA < dB ? dA : dB) + 1;
